@@ -156,6 +156,10 @@ fn http_request(port: u16, token: &str) -> String {
     "tcknil" => ("POST", "/tck/evaluate".to_string(), "{\"model\":\"a\",\"invocable\":\"Greeting Message\",\"input\":[{\"name\":\"x\",\"value\":{\"simple\":{\"type\":\"xsd:string\",\"text\":\"a\",\"isNil\":\"false\"}}}]}".to_string()),
     "wrongtype" => ("POST", format!("/definitions/{}", rest), "{\"content\": [\"a\"], \"namespace\": {\"q\": 1}, \"name\": true}".to_string()),
     "stringforobject" => ("POST", format!("/definitions/{}", rest), "\"just a \\\"string\\\"\"".to_string()),
+    // failures whose message repeats more than a thousand bytes of two-byte characters sent by the caller, from an even and from an odd byte offset
+    "longeval" => ("POST", format!("/evaluate/{}{}/Greeting%20Message", if rest == "odd" { "a" } else { "" }, "%C5%BC".repeat(600)), "{}".to_string()),
+    "longtck" => ("POST", "/tck/evaluate".to_string(), format!("{{\"model\":\"{}{}\",\"invocable\":\"Greeting Message\",\"input\":[]}}", if rest == "odd" { "a" } else { "" }, "\u{17C}".repeat(600))),
+    "longxsd" => ("POST", "/tck/evaluate".to_string(), format!("{{\"model\":\"a\",\"invocable\":\"Greeting Message\",\"input\":[{{\"name\":\"x\",\"value\":{{\"simple\":{{\"type\":\"xsd:decimal\",\"text\":\"{}{}\",\"isNil\":false}}}}}}]}}", if rest == "odd" { "a" } else { "" }, "\u{17C}".repeat(700))),
     "notfound" => ("GET", "/no/such/endpoint".to_string(), String::new()),
     _ => ("GET", "/system/info".to_string(), String::new()),
   };
@@ -522,6 +526,7 @@ fn main() {
         ("xsd:time", "10:20:30.132147786Z", Some("time(\"10:20:30.132147786Z\")")), ("xsd:time", "25:00:00", None),
         ("xsd:dateTime", "2021-03-04T10:20:30+01:00", Some("date and time(\"2021-03-04T10:20:30+01:00\")")), ("xsd:dateTime", "2021-03-04", None),
         ("xsd:duration", "P1Y2M", Some("duration(\"P1Y2M\")")), ("xsd:duration", "-PT1.5S", Some("duration(\"-PT1.5S\")")), ("xsd:duration", "PT300M", Some("duration(\"PT5H\")")), ("xsd:duration", "P", None),
+        ("xsd:duration", "P2D", Some("duration(\"P2D\")")), ("xsd:duration", "-P10D", Some("duration(\"-P10D\")")), ("xsd:duration", "P1Y", Some("duration(\"P1Y\")")), ("xsd:duration", "-P3M", Some("duration(\"-P3M\")")), ("xsd:duration", "PT48H", Some("duration(\"P2D\")")),
       ];
       for (tag, text, expected) in typed {
         cases += 1;
